@@ -114,6 +114,22 @@ def c13_cases(tier):
     # a field an object re-declares with a narrower type than the interface it implements: typed by the object's declaration
     for x in c03_narrowing_cases(tier):
         yield x
+    # many members of the SAME named type in one operation, each with its own type expression (in both orders of declaration)
+    exprs = type_exprs(2 if tier == "quick" else 3)
+    for order in (exprs, list(reversed(exprs))):
+        fields = " ".join("f%d: %s" % (k, sdl) for k, (sdl, _) in enumerate(order))
+        case = {"schema": "type Query { %s }" % fields, "query": "query Q { %s }" % " ".join("f%d" % k for k in range(len(order))), "options": {"mode": "cli"}}
+
+        def oracle_many(res, order=order):
+            if res["exit"] != 0 or not res["out"] or not res["out"].get("ok"):
+                return None
+            st = _structs(norm(res["out"]["tokens"])).get("ResponseData") or {}
+            for k, (sdl, rust) in enumerate(order):
+                got = st.get("f%d" % k, (None, None))[1]
+                if got != rust:
+                    return "in an operation selecting %d members of type Int, `f%d: %s` is declared as `%s`, the rule gives `%s`" % (len(order), k, sdl, got, rust)
+            return None
+        yield case, oracle_many
 
 
 def c14_cases(tier):
@@ -245,6 +261,11 @@ def c17_more_cases(tier):
         "fragment X on Item { child { ...Y } } fragment Y on Item { child { ...X } } query Q { item { value } }",
         # deep nesting
         "query Q { item { " + "child { " * 40 + "value" + " }" * 40 + " } }",
+        # operations that are REJECTED, with the offending selection below inline fragments / spreads (the error path walks the parents)
+        "query Q { root { __typename ... on Item { next { id } } } }",
+        "query Q { root { __typename ... on Item { child { next { id } } } } }",
+        "fragment F on Item { next { id } } query Q { root { __typename ... on Item { ...F } } }",
+        "query Q { u { __typename ... on Item { child { nope } } } }",
         # a spread cycle among fragments on an ABSTRACT type, entered from the selection of an object that implements it / is a member of it
         "fragment NA on Node { __typename id ...NB } fragment NB on Node { __typename id ...NA } query Q { item { value ...NA } }",
         "fragment UA on U { __typename ...UB } fragment UB on U { __typename ...UA } query Q { item { value ...UA } }",
@@ -283,8 +304,7 @@ def c17_more_cases(tier):
 
 
 def c11_cases(tier):
-    kws = ["type", "fn", "self", "Self", "async", "try", "match", "loop"] if tier == "quick" else \
-        "as break const continue crate else enum extern false fn for if impl in let loop match mod move mut pub ref return self Self static struct super trait true type unsafe use where while async await dyn abstract become box do final macro override priv typeof unsized virtual yield try".split()
+    kws = "as break const continue crate else enum extern false fn for if impl in let loop match mod move mut pub ref return self Self static struct super trait true type unsafe use where while async await dyn abstract become box do final macro override priv typeof unsized virtual yield try".split()
     for kw in kws:
         case = {"schema": "type Query { %s: Int other: Int }" % kw, "query": "query Q { %s x: other }" % kw, "options": {"mode": "cli"}}
 
@@ -827,7 +847,7 @@ def c09_cases(tier):
     q = ("fragment N on Named { __typename name } query my_op($in: In, $plain_arg: Int = 5, $id: ID = \"a\") { named { __typename ...N ... on HTTPEndpoint { __typename url } } "
          "thing { __typename ... on rate_limit { __typename n } } obj { __typename name } kind(in: $in, plain_arg: $plain_arg, id: $id) when }")
     base = {"mode": "cli"}
-    variants = [{"normalization": "rust"}, {"response_derives": "Debug,Clone,PartialEq"}, {"response_derives": "Serialize"}, {"response_derives": "Debug, serde::Serialize", "variables_derives": "Deserialize"}, {"variables_derives": "Debug,Default"},
+    variants = [{"normalization": "rust"}, {"response_derives": "Debug,Clone,PartialEq"}, {"response_derives": "Serialize"}, {"response_derives": "Debug, serde::Serialize", "variables_derives": "Deserialize"}, {"response_derives": "Debug, Default"}, {"response_derives": "Default", "variables_derives": "Default"}, {"variables_derives": "Debug,Default"},
                 {"custom_scalars_module": "crate::scalars"}, {"serde_path": "my_serde"},
                 {"normalization": "rust", "response_derives": "Debug", "custom_scalars_module": "crate::s"}]
     base_res = run_case({"schema": schema, "query": q, "options": base})
@@ -855,6 +875,19 @@ def c03_cases(tier):
         yield x
     for x in c03_narrowing_cases(tier):
         yield x
+    # an abstract position whose only `__typename` sits inside a fragment on ONE member: accepted, it would be typed by that member's struct
+    # and every other (or unknown) __typename would deserialize as that member
+    for q in ("fragment D on Dog { __typename name } query Q { pet { ...D } }", "fragment D on Dog { __typename name } query Q { names { ...D } }",
+              "fragment D on Dog { __typename name } fragment W on Pet { ...D } query Q { pet { ...W } }"):
+        case = {"schema": C01_SCHEMA, "query": q, "options": {"mode": "cli"}}
+
+        def oracle_tn(res, q=q):
+            if res["exit"] == 0 and res["out"] and res["out"].get("ok"):
+                t = norm(res["out"]["tokens"])
+                if not re.search(r'serde\(tag="__typename"\)\]pubenumQ(Pet|Names)', t):
+                    return "`%s` is accepted and the abstract position is not a `__typename`-tagged enum: an unknown or other member's __typename would deserialize as `Dog`" % q
+            return None
+        yield case, oracle_tn
     schema = ("interface Named { name: String } type HTTPEndpoint implements Named { name: String url: String } type rate_limit implements Named { name: String n: Int } "
               "type Plain implements Named { name: String } union Thing = HTTPEndpoint | rate_limit | Plain type Query { named: Named thing: Thing things: [Thing!] }")
     queries = [("query Q { thing { __typename ... on rate_limit { n } ... on HTTPEndpoint { url } } }", {"QThing": ["HTTPEndpoint", "rate_limit", "Plain"]}),
